@@ -124,7 +124,10 @@ pub trait Sut: Sized {
     fn split3(self) -> (u32, u32, u32);
     /// the matrix-product client built on the quire: `a.quire_dot(&b)` for an r×k by k×c product
     /// (row-major operands, row-major result)
-    fn matdot(r: usize, k: usize, c: usize, a: &[u32], b: &[u32]) -> Vec<u32>;
+    /// `la`/`lb` choose the storage of each operand: 0 owned dynamic matrix, 1 view into a larger
+    /// parent (offset 1,2), 2 strided view (every other row and column of a parent), 3 statically
+    /// sized matrices when the shape is 2x2·2x2 or 3x3·3x3 (both operands), else owned
+    fn matdot(r: usize, k: usize, c: usize, a: &[u32], b: &[u32], la: u8, lb: u8) -> Vec<u32>;
 }
 
 fn img8(v: u32) -> Img {
@@ -249,15 +252,66 @@ macro_rules! impl_sut {
                 let (a, b, c) = <$Q>::into_three_posits(self);
                 (a.to_bits() as u32, b.to_bits() as u32, c.to_bits() as u32)
             }
-            fn matdot(r: usize, k: usize, c: usize, a: &[u32], b: &[u32]) -> Vec<u32> {
-                use nalgebra::DMatrix;
+            fn matdot(r: usize, k: usize, c: usize, a: &[u32], b: &[u32], la: u8, lb: u8) -> Vec<u32> {
+                use nalgebra::{DMatrix, SMatrix};
                 use softposit::QuireDot;
                 let av: Vec<$P> = a.iter().map(|&x| <$P>::from_bits(x as $U)).collect();
                 let bv: Vec<$P> = b.iter().map(|&x| <$P>::from_bits(x as $U)).collect();
-                let ma = DMatrix::<$P>::from_row_slice(r, k, &av);
-                let mb = DMatrix::<$P>::from_row_slice(k, c, &bv);
-                let out = ma.quire_dot(&mb);
                 let mut v = Vec::with_capacity(r * c);
+                if la == 3 && lb == 3 && r == k && k == c && (r == 2 || r == 3) {
+                    if r == 2 {
+                        let ma = SMatrix::<$P, 2, 2>::from_row_slice(&av);
+                        let mb = SMatrix::<$P, 2, 2>::from_row_slice(&bv);
+                        let out = ma.quire_dot(&mb);
+                        for i in 0..2 {
+                            for j in 0..2 {
+                                v.push(out[(i, j)].to_bits() as u32);
+                            }
+                        }
+                    } else {
+                        let ma = SMatrix::<$P, 3, 3>::from_row_slice(&av);
+                        let mb = SMatrix::<$P, 3, 3>::from_row_slice(&bv);
+                        let out = ma.quire_dot(&mb);
+                        for i in 0..3 {
+                            for j in 0..3 {
+                                v.push(out[(i, j)].to_bits() as u32);
+                            }
+                        }
+                    }
+                    return v;
+                }
+                // everything outside a view is NaR: an implementation that reads outside it is poisoned
+                let junk = <$P>::from_bits(1 << (<$P>::BITS - 1));
+                let oa = DMatrix::<$P>::from_row_slice(r, k, &av);
+                let ob = DMatrix::<$P>::from_row_slice(k, c, &bv);
+                let mut pa = DMatrix::<$P>::from_element(2 * r + 3, 2 * k + 4, junk);
+                let mut pb = DMatrix::<$P>::from_element(2 * k + 3, 2 * c + 4, junk);
+                let place = |parent: &mut DMatrix<$P>, src: &DMatrix<$P>, l: u8| {
+                    for i in 0..src.nrows() {
+                        for j in 0..src.ncols() {
+                            match l {
+                                1 => parent[(1 + i, 2 + j)] = src[(i, j)],
+                                _ => parent[(2 * i, 2 * j)] = src[(i, j)],
+                            }
+                        }
+                    }
+                };
+                place(&mut pa, &oa, la);
+                place(&mut pb, &ob, lb);
+                macro_rules! rhs {
+                    ($lhs:expr) => {
+                        match lb {
+                            1 => $lhs.quire_dot(&pb.slice((1, 2), (k, c))),
+                            2 => $lhs.quire_dot(&pb.slice_with_steps((0, 0), (k, c), (1, 1))),
+                            _ => $lhs.quire_dot(&ob),
+                        }
+                    };
+                }
+                let out = match la {
+                    1 => rhs!(pa.slice((1, 2), (r, k))),
+                    2 => rhs!(pa.slice_with_steps((0, 0), (r, k), (1, 1))),
+                    _ => rhs!(oa),
+                };
                 for i in 0..r {
                     for j in 0..c {
                         v.push(out[(i, j)].to_bits() as u32);
